@@ -25,15 +25,15 @@ def rawContentOK (tag out : List Char) : Bool :=
   !hasEndTag tag out && (!(contentMode false tag == .script) || !hasInfix commentOpen out)
 
 /-- start tags that the theorems cover: good names, no template attribute, content model data or raw text (not PLAINTEXT) -/
-def startGuard (ext : Ext) (name : List Char) (attrs : List Attr) : Bool :=
+def startGuard (o : Opts) (ext : Ext) (name : List Char) (attrs : List Attr) : Bool :=
   goodTag name && !isForeignRoot name &&
   (contentMode false name == .data || (rawMode (contentMode false name) && goodRawTag name)) &&
-  (match specialAttrs ext name (attrs.map AttrSt.ofAttr) with
+  (match specialAttrsOpt o ext name (attrs.map AttrSt.ofAttr) with
    | .ok as0 => as0.all (fun x => (!x.keep || !x.a.tmpl) && goodName x.name)
    | .error _ => false)
 
 /-- guard, next phase and the pieces completed by one step that wrote `out` for the token `t` -/
-def classify (ext : Ext) (ph : Phase) (t : HTok) (out : List Char) : Bool × Phase × List Piece :=
+def classify (o : Opts) (ext : Ext) (ph : Phase) (t : HTok) (out : List Char) : Bool × Phase × List Piece :=
   match ph, t with
   | .data, .text _ _ => (textSafe out, .data, [.data out])
   | .data, .comment _ _ => (goodComment out, .data, [.data out])
@@ -42,7 +42,7 @@ def classify (ext : Ext) (ph : Phase) (t : HTok) (out : List Char) : Bool × Pha
     (out.isEmpty || (goodTag name && !isForeignRoot name && out == endTagBytesOf name), .data, [.data out])
   | .data, .startTag name attrs =>
     if out.isEmpty then (true, .data, [.data out])
-    else (startGuard ext name attrs, if rawMode (contentMode false name) then .rawStart name else .data, [.data out])
+    else (startGuard o ext name attrs, if rawMode (contentMode false name) then .rawStart name else .data, [.data out])
   | .rawStart tag, .text _ _ => (rawContentOK tag out, .rawBody tag out, [])
   | .rawStart tag, .endTag _ _ => (out == endTagBytesOf tag, .data, [.rawBody tag out])
   | .rawBody tag c, .endTag _ _ => (out == endTagBytesOf tag, .data, [.rawBody tag (c ++ out)])
@@ -56,9 +56,9 @@ def walk (o : Opts) (ext : Ext) (sub : Sub) : St → Phase → List HTok → Exc
     match Verif.Model.Html.step o ext sub st t rest with
     | .error e => .error e
     | .ok (st', out) =>
-      match walk o ext sub st' (classify ext ph t out).2.1 rest with
+      match walk o ext sub st' (classify o ext ph t out).2.1 rest with
       | .error e => .error e
-      | .ok (ok, ps) => .ok ((classify ext ph t out).1 && ok, (classify ext ph t out).2.2 ++ ps)
+      | .ok (ok, ps) => .ok ((classify o ext ph t out).1 && ok, (classify o ext ph t out).2.2 ++ ps)
 
 /-! ## the lexer contract as a decidable predicate -/
 
